@@ -260,7 +260,7 @@ def cell_strategy(draw):
     a, b, c = [draw(hs.floats(2.0, 30.0)) for _ in range(3)]
     # angles: generic values and the exact crystallographic ones (30, 45, 60, 90, 120, 135, 150 degrees: rhombohedral / primitive fcc, hexagonal
     # and monoclinic settings), for which an implementation might take a shortcut
-    special = hs.sampled_from([30.0, 45.0, 60.0, 90.0, 120.0, 135.0, 150.0])
+    special = hs.sampled_from([30.0, 45.0, 60.0, 90.0, 120.0, 135.0, 150.0, 90.0005, 89.9995, 90.0002, 89.9992, 90.01, 60.0004, 119.9995])   # and near misses of them
     kind = draw(hs.integers(0, 9))
     if kind == 0:
         # all three angles special and valid as a triple: rhombohedral alpha=beta=gamma in {60, 90}, hexagonal in both settings, monoclinic
